@@ -24,6 +24,12 @@ struct DetLocal {
   }
 };
 
+// variant 3: user-supplied ids that are unique but sparse and unordered (spread over 2^28): the executor's windows are
+// ranges of ids, so every generation takes many windows and many passes through the outer round structure
+struct SparseIdFn {
+  uintptr_t operator()(int item) const { return (uintptr_t)((((uint32_t)item * 2654435761u) & 0xFFFFFFu) * 16u + 5u); }
+};
+
 template <int VARIANT>
 static void runVariant(fe::Program& prog, const fe::RunCfg& rc) {
   // the harness' runOne uses wl<WL>() only; the traits variants need their own call
@@ -54,6 +60,9 @@ static void runVariant(fe::Program& prog, const fe::RunCfg& rc) {
   else if (VARIANT == 1)
     galois::for_each(galois::iterate(prog.initial), op, galois::wl<DWL>(), galois::per_iter_alloc(), galois::no_stats(), galois::loopname("det"),
                      galois::det_id<IdFn>());
+  else if (VARIANT == 3)
+    galois::for_each(galois::iterate(prog.initial), op, galois::wl<DWL>(), galois::per_iter_alloc(), galois::no_stats(), galois::loopname("det"),
+                     galois::det_id<SparseIdFn>());
   else {
     auto op2 = [](int item, auto& ctx) {
       unsigned tid = galois::substrate::ThreadPool::getTID();
@@ -110,7 +119,7 @@ int main(int argc, char** argv) {
   for (int p = 0; p < progs; ++p) {
     uint64_t ps = rng.next();
     const char* onlyv = getenv("VERIF_FD_VARIANT");      // a check may ask for one variant only
-    for (int variant = 0; variant < 3; ++variant) {
+    for (int variant = 0; variant < 4; ++variant) {
       if (onlyv && atoi(onlyv) != variant) continue;
       fe::Program prog;
       vh::Rng pr(ps);
@@ -119,12 +128,12 @@ int main(int argc, char** argv) {
       fe::genProgram(prog, pr, nInit, nInit > 500 ? 60 + (int)pr.below(60) : 1 + (int)pr.below(ctl ? 3 : 5), nInit > 500 ? 1 : 2, 2, false, false, 0);
       for (int r = 0; r < runs; ++r) {
         fe::RunCfg rc;
-        rc.wlname = variant == 2 ? "Deterministic<local_state>" : variant ? "Deterministic<det_id>" : "Deterministic";
+        rc.wlname = variant == 3 ? "Deterministic<det_id:sparse>" : variant == 2 ? "Deterministic<local_state>" : variant ? "Deterministic<det_id>" : "Deterministic";
         rc.mode = a.mode; rc.seed = rng.next(); rc.kind = "plain";
         rc.threads = 1 + (r == 0 ? 0 : (int)(rc.seed % maxT));
         rc.conflicts = true;
-        rc.descending = p * 3 + variant; // program number (reused field)
-        if (variant == 0) runVariant<0>(prog, rc); else if (variant == 1) runVariant<1>(prog, rc); else runVariant<2>(prog, rc);
+        rc.descending = p * 4 + variant; // program number (reused field)
+        if (variant == 0) runVariant<0>(prog, rc); else if (variant == 1) runVariant<1>(prog, rc); else if (variant == 2) runVariant<2>(prog, rc); else runVariant<3>(prog, rc);
       }
     }
   }
